@@ -1,4 +1,5 @@
 From AQ Require Import lib.Base model.H3Parse proofs.H3Chunk proofs.H3Split proofs.H3Loop proofs.H3Recv proofs.H3Fin proofs.H3Uni proofs.H3Table proofs.H3Push proofs.H3Hdr proofs.H3UniN proofs.H3Conn proofs.H3ConnTwo.
+From AQ Require Import model.H3Send proofs.H3Round proofs.H3Inter proofs.H3Two.
 
 (* On the code as pinned, the events of a request stream depend on the chunking: three byte strings for which
    whole delivery and a two-chunk delivery give different normalised events (end-of-stream marker). *)
@@ -290,3 +291,167 @@ Theorem frame_loop_fuel_independent :
   rq_loop f1 fx O cl fin st b evs = rq_loop f2 fx O cl fin st b evs.
 Proof. exact loop_fuel. Qed.
 Print Assumptions frame_loop_fuel_independent.
+
+(* ROUND TRIP ("headers, bodies and trailers submitted through the sending API on one endpoint arrive unchanged and in order
+   on the other for every valid header list, body size and write pattern").  Sending side: model/H3Send.v (send_headers,
+   send_data, send_push_promise; tied to the real H3Connection by the correspondence suite h3send: every send_stream_data
+   call, return value and exception class).  msg_ops = send_headers(h), send_data for EVERY list of body pieces (any sizes
+   below 2^62, empty pieces included), optional send_headers(trailers); end_stream on the last call.  On a stream nothing was
+   sent on yet (request stream, or push stream behind its header: pu, sy) these calls end the stream (stream_fin) and, for
+   EVERY chunking of the bytes they wrote on it (mk_chunks: FIN on the last delivery or as a delivery of its own), the
+   receive path reports exactly: the headers, the body bytes in order, the trailers, one end of stream (msg_atoms).
+   Hypotheses on the external parts: the decoder returns the header list the encoder was given (decode (encode h) = h:
+   o_dec O sid (blk h) = DHeaders h; same for the trailers), the header list is valid for the receiving role (o_val accepts)
+   and a content-length header, if present, states the body length (cl_ok). *)
+Theorem h3_roundtrip : forall (fx : fixes) (O : oracle) (cl : bool), fx_trunc fx = true -> fx_endmark fx = true ->
+  forall (sid : Z) (pu sy : option Z) (blk encb : Z -> list Z) (c : sconn) (h : Z) (body : list (list Z))
+         (tr ecl : option Z) (first : list Z) (parts : list (list Z)),
+  sc_enc c <> sid -> sget c sid = mkSS sid 0 false ->
+  Zlen (blk h) < 4611686018427387904 -> Forall (fun d => Zlen d < 4611686018427387904) body ->
+  match tr with Some t => Zlen (blk t) < 4611686018427387904 /\ o_dec O sid (blk t) = DHeaders t /\ fst (o_val O 2 t) = true
+              | None => True end ->
+  o_dec O sid (blk h) = DHeaders h -> o_val O (if cl then 1 else 0) h = (true, ecl) ->
+  cl_ok ecl (Zlen (concat body)) ->
+  first ++ concat parts = stream_bytes sid (swrites c (msg_ops sid blk encb h body tr)) ->
+  stream_fin sid (swrites c (msg_ops sid blk encb h body tr)) = true /\
+  events_of (feed fx O cl (fresh_recv sid pu sy None) (mk_chunks first parts true)) = Some (msg_atoms sid pu h body tr).
+Proof. exact roundtrip_message. Qed.
+Print Assumptions h3_roundtrip.
+
+(* ... with a PUSH PROMISE: the server calls send_push_promise(sid, promised request hp) and then sends the response on the
+   request stream; the client, for EVERY chunking of the request stream, reports PushPromiseReceived with the push id the
+   server allocated and the promised header list, then the response.  (server: a push id is available, sid is a request
+   stream id; the announcement of the push stream -- type 1, push id -- is the last conjunct of h3_roundtrip_push_send) *)
+Theorem h3_roundtrip_push_promise : forall (fx : fixes) (O : oracle), fx_trunc fx = true -> fx_endmark fx = true ->
+  forall (sid : Z) (sy : option Z) (blk encb : Z -> list Z) (c : sconn) (m hp h : Z) (body : list (list Z)) (tr ecl : option Z)
+         (first : list Z) (parts : list (list Z)),
+  sc_client c = false -> sid mod 4 = 0 -> sc_max_push c = Some m -> 0 <= sc_next_push c < m ->
+  sc_next_push c < 4611686018427387904 ->
+  sc_enc c <> sid -> sc_next_uni c <> sid -> sget c sid = mkSS sid 0 false ->
+  Zlen (encode_uint_var (sc_next_push c) ++ blk hp) < 4611686018427387904 ->
+  o_dec O sid (blk hp) = DHeaders hp -> fst (o_val O 3 hp) = true ->
+  Zlen (blk h) < 4611686018427387904 -> Forall (fun d => Zlen d < 4611686018427387904) body ->
+  match tr with Some t => Zlen (blk t) < 4611686018427387904 /\ o_dec O sid (blk t) = DHeaders t /\ fst (o_val O 2 t) = true
+              | None => True end ->
+  o_dec O sid (blk h) = DHeaders h -> o_val O 1 h = (true, ecl) ->
+  cl_ok ecl (Zlen (concat body)) ->
+  first ++ concat parts = stream_bytes sid (swrites c (OPush sid (encb hp) (blk hp) :: msg_ops sid blk encb h body tr)) ->
+  events_of (feed fx O true (fresh_recv sid None sy None) (mk_chunks first parts true))
+  = Some (APush sid (sc_next_push c) hp :: msg_atoms sid None h body tr).
+Proof. exact roundtrip_promise. Qed.
+Print Assumptions h3_roundtrip_push_promise.
+
+Theorem h3_roundtrip_push_send : forall (sid : Z) (blk encb : Z -> list Z) (c : sconn) (m hp h : Z) (body : list (list Z)) (tr : option Z),
+  sc_client c = false -> sid mod 4 = 0 -> sc_max_push c = Some m -> sc_next_push c < m ->
+  sc_enc c <> sid -> sc_next_uni c <> sid -> sget c sid = mkSS sid 0 false ->
+  let ws := swrites c (OPush sid (encb hp) (blk hp) :: msg_ops sid blk encb h body tr) in
+  stream_bytes sid ws = encode_frame 5 (encode_uint_var (sc_next_push c) ++ blk hp) ++ msg_bytes blk h body tr /\
+  stream_fin sid ws = true /\
+  exists rest, ws = [(sc_enc c, encb hp, false);
+                     (sid, encode_frame 5 (encode_uint_var (sc_next_push c) ++ blk hp), false);
+                     (sc_next_uni c, encode_uint_var 1, false);
+                     (sc_next_uni c, encode_uint_var (sc_next_push c), false)] ++ rest.
+Proof. exact send_promise_message. Qed.
+Print Assumptions h3_roundtrip_push_send.
+
+(* ... and the PUSH STREAM: stream type 1, the push id, then a message (written by the same send_headers / send_data calls
+   on the id send_push_promise returned): one delivery of that stream yields the message with the push id on every event *)
+Theorem h3_roundtrip_push_stream : forall (fx : fixes) (O : oracle), fx_trunc fx = true -> fx_endmark fx = true ->
+  forall (c : conn) (psid : Z) (blk : Z -> list Z) (pid h : Z) (body : list (list Z)) (tr ecl : option Z),
+  0 <= pid < 4611686018427387904 ->
+  Zlen (blk h) < 4611686018427387904 -> Forall (fun d => Zlen d < 4611686018427387904) body ->
+  match tr with Some t => Zlen (blk t) < 4611686018427387904 /\ o_dec O psid (blk t) = DHeaders t /\ fst (o_val O 2 t) = true
+              | None => True end ->
+  o_dec O psid (blk h) = DHeaders h -> o_val O (if c_client c then 1 else 0) h = (true, ecl) ->
+  cl_ok ecl (Zlen (concat body)) ->
+  exists e st',
+    uni_full fx O (new_stream psid) c (encode_uint_var 1 ++ encode_uint_var pid ++ msg_bytes blk h body tr) true = UF e st' c [] /\
+    norm e = msg_atoms psid (Some pid) h body tr.
+Proof. exact recv_push_stream. Qed.
+Print Assumptions h3_roundtrip_push_stream.
+
+(* its two halves: what the calls write on their stream, and what a whole delivery of a well-formed message yields *)
+Theorem h3_roundtrip_send : forall (sid : Z) (blk encb : Z -> list Z) (c : sconn) (h : Z) (body : list (list Z)) (tr : option Z),
+  sc_enc c <> sid -> sget c sid = mkSS sid 0 false ->
+  stream_bytes sid (swrites c (msg_ops sid blk encb h body tr)) = msg_bytes blk h body tr /\
+  stream_fin sid (swrites c (msg_ops sid blk encb h body tr)) = true.
+Proof. exact send_message_split. Qed.
+Print Assumptions h3_roundtrip_send.
+
+(* frames survive: decode (encode) = id for varints and frames, every value below 2^62 *)
+Theorem h3_roundtrip_varint : forall v rest, 0 <= v < 4611686018427387904 ->
+  pull_uint_var (encode_uint_var v ++ rest) = Some (v, rest).
+Proof. exact pull_encode. Qed.
+Print Assumptions h3_roundtrip_varint.
+
+(* CROSS-STREAM INTERLEAVING of request / response (bidirectional) streams.  A schedule = a list of deliveries (stream id,
+   bytes, FIN); proj sid = the deliveries of one stream, in order.  crun = handle_event on the whole schedule (Some: every
+   delivery returned events); lrun = the parser of one stream fed its own deliveries alone.  The QPACK / validation answers
+   are the same function for every call (the streams do not share changing QPACK state: no encoder-stream data arrives
+   during the schedule; blocks that have to wait simply stay blocked).
+   PROJECTION: what the connection returns for the deliveries of stream sid is what the stream's own parser returns for
+   them, whatever was delivered to other streams in between. *)
+Theorem interleaving_projection : forall fx O tr c outs,
+  c_done c = false -> c_sent_end c = [] -> bidi tr -> crun fx O c tr = Some outs ->
+  forall sid, lrun fx O (c_client c) (fst (get_or_create c sid)) (proj sid tr) = Some (outs_of sid outs).
+Proof. exact interleave_projection. Qed.
+Print Assumptions interleaving_projection.
+
+(* ANY INTERLEAVING that preserves the order of the deliveries of each stream (forall sid, proj sid tr1 = proj sid tr2): if
+   one schedule is accepted so is the other, and stream by stream, delivery by delivery, the events returned are equal
+   (not only their normal form).  With chunking_independent per stream: the events of a connection depend neither on how
+   each stream's bytes are cut nor on how the deliveries of different streams are interleaved. *)
+Theorem interleaving_independent_streams : forall fx O tr1 tr2 c outs1,
+  c_done c = false -> c_sent_end c = [] -> bidi tr1 -> bidi tr2 ->
+  (forall sid, proj sid tr1 = proj sid tr2) ->
+  crun fx O c tr1 = Some outs1 ->
+  exists outs2, crun fx O c tr2 = Some outs2 /\ forall sid, outs_of sid outs1 = outs_of sid outs2.
+Proof. exact interleave_any. Qed.
+Print Assumptions interleaving_independent_streams.
+
+(* SEVERAL BLOCKED STREAMS: streams A and B each receive a HEADERS frame (plus any further bytes, with or without FIN)
+   whose block needs encoder-stream data.  Schedule 1: both are delivered first (both wait; StreamBlocked twice), then ONE
+   encoder-stream delivery reports [A; B] and both are resumed, in the decoder's order, inside that one handle_event call.
+   Schedule 2: the encoder stream first, then A, then B (nothing waits).  When both header lists are accepted and what
+   follows them parses (the two hd_decoded hypotheses: the outcome of the stream's own parser), schedule 1 returns
+   eA ++ eB from the encoder-stream call and schedule 2 returns eA and eB from the calls of the two streams: the same
+   events, per stream and in total.  (If the second resumed stream is refused, schedule 1 closes the connection inside
+   that call and eA is never returned: events computed before a connection error in the same call are dropped, as for a
+   single stream.) *)
+Theorem interleaving_independent_two_blocked_streams :
+  forall fx, fx_trunc fx = true -> fx_endmark fx = true -> fx_pushblock fx = true ->
+  forall c0 A B es dataA blockA restA finA dataB blockB restB finB encdata encpayload OA OB O2 eA sA' eB sB',
+  c_done c0 = false -> c_sent_end c0 = [] -> is_uni A = false -> is_uni B = false -> is_uni es = true -> A <> B ->
+  hd_ready c0 A -> hd_ready c0 B -> enc_ready c0 es encdata encpayload ->
+  frame_at dataA 1 blockA restA -> frame_at dataB 1 blockB restB ->
+  o_enc OA encpayload = EUnblocked [] ->
+  o_dec OB A blockA = DBlocked -> o_dec OB B blockB = DBlocked ->
+  o_enc O2 encpayload = EUnblocked [A; B] ->
+  o_resume O2 A = o_dec O2 A blockA -> o_resume O2 B = o_dec O2 B blockB ->
+  hd_decoded fx O2 (c_client c0) (fst (get_or_create c0 A)) finA restA (o_dec O2 A blockA) = RVal eA sA' ->
+  hd_decoded fx O2 (c_client c0) (fst (get_or_create c0 B)) finB restB (o_dec O2 B blockB) = RVal eB sB' ->
+  run fx c0 [(QStream A dataA finA, OB); (QStream B dataB finB, OB); (QStream es encdata false, O2)]
+    = [Events []; Events []; Events (eA ++ eB)] /\
+  run fx c0 [(QStream es encdata false, OA); (QStream A dataA finA, O2); (QStream B dataB finB, O2)]
+    = [Events []; Events eA; Events eB].
+Proof. exact two_blocked. Qed.
+Print Assumptions interleaving_independent_two_blocked_streams.
+
+(* ... with UNIDIRECTIONAL deliveries in the schedule (control stream frames, push streams, WebTransport, QPACK decoder
+   stream, unknown types, and encoder-stream deliveries that unblock nothing: quiet): the events of every request /
+   response stream are still exactly what its own parser returns for its own deliveries, whatever is delivered in between
+   to other request streams and to unidirectional streams; hence two accepted schedules that deliver the same chunks to a
+   request stream in the same order return the same events for it. *)
+Theorem interleaving_projection_mixed : forall fx O tr c outs,
+  c_done c = false -> c_sent_end c = [] -> quiet O -> crun fx O c tr = Some outs ->
+  forall sid, is_uni sid = false ->
+  lrun fx O (c_client c) (fst (get_or_create c sid)) (proj sid tr) = Some (outs_of sid outs).
+Proof. exact interleave_projection_mixed. Qed.
+Print Assumptions interleaving_projection_mixed.
+
+Theorem interleaving_independent_mixed : forall fx O tr1 tr2 c outs1 outs2,
+  c_done c = false -> c_sent_end c = [] -> quiet O ->
+  crun fx O c tr1 = Some outs1 -> crun fx O c tr2 = Some outs2 ->
+  forall sid, is_uni sid = false -> proj sid tr1 = proj sid tr2 -> outs_of sid outs1 = outs_of sid outs2.
+Proof. exact interleave_independent_mixed. Qed.
+Print Assumptions interleaving_independent_mixed.
